@@ -293,7 +293,7 @@
   "C10"
  ],
  "level": "B(24)",
- "tier": "thorough",
+ "tier": "wip",
  "harness": "h_dirhash",
  "defines": [
   "HT_CAP=24",
@@ -349,7 +349,8 @@
   "0 <= len <= 255",
   "helpers replaced by their contracts (they are unreachable here)"
  ],
- "native": false
+ "native": false,
+ "no_cross_check": true
 }
 */
 /* VERIF-UNIT
